@@ -224,6 +224,84 @@ class JSplit:
         return sig
 
 
+CURVED = {
+    "q1": [[(0, 0), (4, 0)], [(4, 0), (4, 3), (0, 3)], [(0, 3), (0, 0)]],
+    "q2": [[(0, 0), (2, -1), (4, 0)], [(4, 0), (5, 2), (2, 4)], [(2, 4), (0, 0)]],
+    "c1": [[(0, 0), (1, -1), (3, -1), (4, 0)], [(4, 0), (2, 3)], [(2, 3), (0, 0)]],
+}
+
+
+class CurvedSplitClean:
+    """a closed chain with a quadratic / cubic piece (concrete control points) placed at a symbolic translation: split
+    the curved piece at a concrete parameter, then clean(): the original segmentation and control points come back,
+    the split curve == the original, area unchanged"""
+
+    nfree = 0
+    max_degree = 2
+
+    def __init__(self, chain, index, nodes):
+        self.chain, self.index, self.nodes = chain, index, [F(x) for x in nodes]
+        self.names = ["tx", "ty"]
+
+    def domain(self, xs):
+        return [xs[0] >= -1000, xs[0] <= 1000, xs[1] >= -1000, xs[1] <= 1000]
+
+    def seed(self):
+        return [F(1, 3), F(-2, 7)]
+
+    def ctrl(self, xs):
+        return [[(F(x) + xs[0], F(y) + xs[1]) for x, y in seg] for seg in CURVED[self.chain]]
+
+    def run(self, xs):
+        from shapepy.jordancurve import IntegrateJordan
+
+        segs = self.ctrl(xs)
+        J = JordanCurve.from_ctrlpoints(segs)
+        a0 = IntegrateJordan.area(J)
+        J.split([self.index] * len(self.nodes), list(self.nodes))
+        out = {"nseg_split": len(J.segments), "closed": closed_by_identity(J), "area_split": IntegrateJordan.area(J), "area": a0}
+        from symx import shims
+
+        # `==` on curved pieces runs the Newton projection: outside the symbolic fragment, evaluated in replays only
+        out["_eq"] = None if shims.installed() else bool(J == JordanCurve.from_ctrlpoints(self.ctrl(xs)))
+        J.clean()
+        out["cleaned"] = [[[p[0], p[1]] for p in s.ctrlpoints] for s in J.segments]
+        out["_orig"] = segs
+        return out
+
+    def oblige(self, tr, out):
+        T, Fl = z3.BoolVal(True), z3.BoolVal(False)
+        orig = out["_orig"]
+        n = len(orig) + len(set(self.nodes))
+        same = len(out["cleaned"]) == len(orig) and all(len(a) == len(b) and all(_same(p, q) for p, q in zip(a, b)) for a, b in zip(out["cleaned"], orig))
+        return [("split of a curved piece: wrong number of pieces / junctions not shared", Fl if out["nseg_split"] == n and out["closed"] else T, {}),
+                ("area changed by splitting a curved piece", R.zb(_ne(out["area_split"], out["area"])), {}),
+                ("split followed by clean does not restore the original segmentation", Fl if same else T, {"nseg": len(out["cleaned"])})]
+
+    def on_raise(self, exc, func, line):
+        return "split/clean raised " + exc
+
+    def confirm(self, name, xs, outcome, exc):
+        desc = f"chain {self.chain}+({xs[0]}, {xs[1]}) split(segment {self.index}, nodes {[str(x) for x in self.nodes]})"
+        if name.startswith("split/clean raised"):
+            return exc is not None, desc + f": {exc}"
+        if outcome is None:
+            return False, str(exc)
+        orig = outcome["_orig"]
+        if name.startswith("split of a curved piece"):
+            return not (outcome["nseg_split"] == len(orig) + len(set(self.nodes)) and outcome["closed"]), desc + f": {outcome['nseg_split']} segments"
+        if name.startswith("area changed"):
+            return val(outcome["area_split"]) != val(outcome["area"]), desc + f": {outcome['area_split']} vs {outcome['area']}"
+        got = [[(val(p[0]), val(p[1])) for p in s] for s in outcome["cleaned"]]
+        want = [[(val(p[0]), val(p[1])) for p in s] for s in orig]
+        tol = F(1, 10**9)
+        ok = len(got) == len(want) and all(len(a) == len(b) and all(abs(p[0] - q[0]) <= tol and abs(p[1] - q[1]) <= tol for p, q in zip(a, b)) for a, b in zip(got, want))
+        return not ok, desc + f": after clean {len(got)} segments of degrees {[len(s) - 1 for s in got]}"
+
+    def signature(self, name, xs, outcome, exc):
+        return {"name": name.split(" raised")[0], "curved": True}
+
+
 def _ne(a, b):
     d = a - b
     if isinstance(d, Sym):
@@ -254,6 +332,8 @@ def specs(tier):
         cl += [("ell", [0, 2, 5], ["1/2", "1/2", "9/10"]), ("you", [1, 1, 1], ["1/8", "1/2", "7/8"]), ("square", [0, 1, 2, 3], ["1/2", "1/3", "1/4", "1/5"])]
     for p, ix, ns in cl:
         out.append(dict(module=Mo, scenario="JSplit", params=dict(poly=p, indexs=ix, nodes=ns)))
+    for ch, ix, ns in [("q1", 1, ["1/3"]), ("q2", 0, ["1/4"]), ("c1", 0, ["2/5"])] + ([("q2", 1, ["1/3", "3/4"]), ("c1", 0, ["1/2"]), ("q1", 1, ["1/2"])] if tier != "quick" else []):
+        out.append(dict(module=Mo, scenario="CurvedSplitClean", params=dict(chain=ch, index=ix, nodes=ns)))
     return out
 
 
